@@ -313,9 +313,11 @@ Verdict run_sched_case(const Case &c, SchedProp which)
   pc.sched.record = true;
   pc.want_events = (which == SP_C14) && wapi::has_scheduler(); // on real threads the event log's own lock would order the threads and hide races
   g_last_trace_valid = false;
+  if (which == SP_C04 && c.has("rderr"))
+    pc.in_fail_at = (long)c.geti("rderr"); // an unreadable stretch of the input: the operation may fail, it must still return
   std::string pre = which == SP_C04 ? c.get("pre", "") : "";
   int preT = (int)c.geti("preT");
-  ChildResult r = run_in_child([&]() -> bytes {
+  auto job = [&]() -> bytes {
     if (!pre.empty())
       run_prelude(pre, e, preT < 1 ? 1 : preT);
     if (op == "enc")
@@ -325,7 +327,19 @@ Verdict run_sched_case(const Case &c, SchedProp which)
     if (op == "ver")
       return wapi::verify(input, e.key, pc, false).ser();
     return wapi::run_recorder(input, op == "rec", pc).ser();
-  });
+  };
+  ChildResult r = run_in_child(job);
+  bool hung_twice = false;
+  if (r.status == CH_TIMEOUT && which == SP_C04 && wapi::has_scheduler())
+  {
+    // under the scheduler a case takes milliseconds; 60 s without a result means a loop that never reaches a
+    // schedule point or a stream (the step bound and the callback bound cannot fire). Once more, with 3x the time.
+    ChildResult r2 = run_in_child(job, 180);
+    if (r2.status == CH_TIMEOUT)
+      hung_twice = true;
+    else
+      r = r2;
+  }
   wapi::OpOut o;
   wapi::RecOut ro;
   if (r.status == CH_OK)
@@ -388,6 +402,8 @@ Verdict run_sched_case(const Case &c, SchedProp which)
   v.classes.push_back("sched_kind" + std::to_string(e.s1.kind));
   if (!pre.empty())
     v.classes.push_back("after_earlier_op=" + pre);
+  if (pc.in_fail_at >= 0)
+    v.classes.push_back("input_read_error_injected");
   {
     // distinct by (config, resolved decision trace)
     std::string t;
@@ -402,6 +418,7 @@ Verdict run_sched_case(const Case &c, SchedProp which)
     id.set("trace", t);
     id.set("spur", std::to_string(o.sched.spurious));
     id.set("pre", pre);
+    id.seti("rderr", pc.in_fail_at);
     v.distinct = fnv64(id.text());
   }
   if (which == SP_C04)
@@ -417,6 +434,8 @@ Verdict run_sched_case(const Case &c, SchedProp which)
     f.distinct = v.distinct;
     return f;
   };
+  if (hung_twice)
+    return [&] { Verdict f = bad("did not return within 60 s and again within 180 s under the deterministic scheduler (a case of this size takes milliseconds; no schedule point and no stream call was reached in the meantime, so neither bound could fire): endless loop"); f.slow = true; return f; }();
   if (r.status == CH_TIMEOUT)
   {
     v.classes.push_back("watchdog_inconclusive");
@@ -623,6 +642,13 @@ Case gen_sched_case(SchedProp which)
   c.seti("T", T);
   c.seti("chunk", chunk);
   c.set("sched", gen_sched(T, (size_t)(len / 16 + 1)).text());
+  if (which == SP_C04 && wapi::has_scheduler() && (op == "enc" || op == "dec" || op == "ver") && g::coin(10))
+  {
+    // the input becomes unreadable (EIO) from some offset on: anywhere in the file incl. header, chunk boundaries, the end
+    long total = (long)len + (op == "enc" ? 0 : 48 + 20 * T + 16);
+    long at = g::coin(50) ? g::range(0, total + 1) : (op == "enc" ? 0 : 48 + 20 * T) + chunk * g::range(0, q + 2) + g::oneof<long>({-1, 0, 1, 16});
+    c.seti("rderr", at < 0 ? 0 : at);
+  }
   if (which == SP_C04 && wapi::has_scheduler() && g::coin(20))
   {
     c.set("pre", g::oneof<std::string>({"rejdec", "rejver", "garbage", "enc", "dec"}));
